@@ -15,6 +15,8 @@ PROPS = {
                 assumptions=["generation numbers compared by rank, not by value",
                              "store clock strictly increasing between successive writes"]),
     "C02": dict(harness="gcs", trusted=GCS_TRUST, assumptions=["generation numbers compared by rank"]),
+    "C07": dict(harness="gcs", trusted=GCS_TRUST + ["the per-object lock is an atomic acquire/release (justified by C19); the Go scheduler and memory model are not modelled; preemption is exhibited only at the instrumented yield points"],
+                assumptions=["blocking on the object lock is observed through the runtime's goroutine wait state (select inside countedLock.Lock)"]),
     "C09": dict(harness="gcs", trusted=GCS_TRUST, assumptions=["file mtime (generation) strictly increases between successive writes", "pending resumable uploads are per-instance session state"]),
     "C10": dict(harness="gcs", trusted=GCS_TRUST, assumptions=["store clock strictly increasing between successive writes (collisions are measured and reported)"]),
     "C11": dict(harness="gcs", trusted=GCS_TRUST, assumptions=["page tokens compared by the name they decode to"],
@@ -69,7 +71,13 @@ def _file_order(case, step):
     return _segs_order_differs([n for n in names if n])
 
 
+def _file_add_mixture(case, step):
+    """GCS-10: the file store's Add is three file operations; a lock-free reader in between."""
+    return case.get("tag") == "file-add-mixture" and case.get("store") == "file"
+
+
 KNOWN_MATCHERS = {
+    "GCS-10": _file_add_mixture,
     "GCS-1": _delim_listing,
     "GCS-2": _file_order,
     "GCS-7": _has_zero_cond,
@@ -92,6 +100,8 @@ TEXT = {
              level="Theorems about the filter model: the derivative matcher decides the regular language; the evaluator refines the cell-list semantics of every supported filter; invalid arguments are rejected by the validator for all trees." + _CORR, note=_NOTE),
  "C06": dict(technique="Coq proof (interleaving model: every schedule equals the serial execution of the critical sections in acquisition order; failure atomicity of the write handlers) + exhaustive two-request interleavings driven through yield hooks on the real server, 3 engines",
              level="Theorems about the interleaving model of the table lock (any number of threads, any schedule): the lock invariant, equality of every scheduled run with the serial run in acquisition order (responses included), real-time order, and failure atomicity of MutateRow / MutateRows entries / CheckAndMutateRow / ReadModifyWriteRow for every position of an invalid mutation. Correspondence: all interleavings of two requests at the instrumented yield points are executed on real goroutines and compared step by step (parked / blocked / returned + response), then a full read." + _CORR, note=_NOTE + " The Go scheduler, sync.RWMutex and the memory model are assumptions; preemption is exhibited only at hook points."),
+ "C07": dict(technique="Coq proof over the interleaving model (per-object lock; every schedule equals a serial execution per object) + exhaustive two-request interleavings driven through yield hooks on the real handlers, both stores",
+             level="Theorems about the interleaving model of the handlers (any number of threads, any schedule): the lock invariant, store effects on one object equal a serial order consistent with real time, of N writers conditioned on one generation or on non-existence exactly one succeeds, a metageneration-conditioned patch applies only to a matching state, no update is lost; memory-store reads return one committed version. The file store's three-step Add seen by a lock-free reader is refuted by a schedule (finding GCS-10). Correspondence: all interleavings of two requests at the yield point between precondition check and store mutation are executed on real goroutines and compared step by step, then the final state." + _CORR, note=_NOTE + " The object lock is atomic by C19; the Go scheduler and memory model are assumptions."),
  "C09": dict(technique="Coq proof (file-store walk model agrees with the memory-store walk on order-compatible name sets; refuted otherwise) + paired differential correspondence (both stores against their models) with a restart probe at request boundaries",
              level="One handler model serves both stores and differs only in the listing walk (bytewise order vs filepath.Walk order with directory entries); theorems relate the two walks, and the order discrepancy (GCS-2) is refuted by a witness. Correspondence: each program runs on both real stores against the corresponding model; on the file store a fresh emulator instance on the same directory must answer like the running one at request boundaries; a sidecar-less content file must be served." + _CORR, note=_NOTE),
  "C10": dict(technique="Coq invariant proof (generation counter monotone, metageneration laws) + differential correspondence on random histories, both stores",
